@@ -77,7 +77,7 @@ class HyperWorld(World):
             # non-conservative ingredients (no energy oracle then; the Newton system must still be the derivative of the
             # residual): Kelvin-Voigt viscosity and an active fibre stress
             "eta": float(np.round(rng.uniform(0.01, 1.0), 3)) if rng.random() < 0.2 else 0.0,
-            "active": [float(np.round(rng.uniform(0.5, 5.0), 3)), float(np.round(rng.uniform(0, np.pi), 3))] if rng.random() < 0.12 else None,
+            "active": [float(np.round(rng.uniform(0.5, 5.0), 3)), float(np.round(rng.uniform(0, np.pi), 3))] if rng.random() < 0.2 else None,
             # the energy statement is about the midpoint scheme; a third of the runs step another scheme (no energy oracle
             # then): the system of a Newton iteration must be the derivative of the residual under every one of them
             "scheme": ["midpoint", "midpoint", "midpoint", "midpoint", "newmark", "hht", "euler_implicit"][int(rng.integers(7))],
@@ -274,7 +274,7 @@ class HyperWorld(World):
     def gen_op(self, rng, frng):
         if getattr(self, "ended", False):
             return None
-        w = {"step": 10, "set_dt": 1.5, "set_rho": 0.8, "save_iter": 1.0, "rollback": 0.6 if self.saved else 0, "tangent": 2.0 if self.cfg["stress"] != "quadrature" else 0,
+        w = {"step": 10, "set_active": 2.0 if self.cfg.get("active") else 0, "set_dt": 1.5, "set_rho": 0.8, "save_iter": 1.0, "rollback": 0.6 if self.saved else 0, "tangent": 2.0 if self.cfg["stress"] != "quadrature" else 0,
              "energy_gradient": 1.5 if not (self.cfg.get("active") or self.cfg.get("eta")) else 0}
         names = sorted(w)
         pr = np.array([w[k] for k in names], dtype=float)
@@ -288,6 +288,11 @@ class HyperWorld(World):
             op["dt"] = float(np.round(self.dt * 10 ** rng.uniform(-0.5, 0.5), 6))
         elif name == "set_rho":
             op["rho"] = float(np.round(self.rho * 10 ** rng.uniform(-0.6, 0.6), 4))
+        elif name == "set_active":
+            # a fibre-angle sweep / an activation curve on one material object: the direction is registered again (same or
+            # another tension), or only the tension is changed
+            op["angle"] = float(np.round(rng.uniform(0, np.pi), 3)) if rng.random() < 0.75 else None
+            op["tau"] = float(np.round(rng.uniform(0.5, 5.0), 3)) if rng.random() < 0.4 else None
         elif name == "rollback":
             op["i"] = int(rng.integers(len(self.saved)))
         elif name == "tangent":
@@ -344,6 +349,23 @@ class HyperWorld(World):
         if name == "set_dt":
             self._set_dynamic(op["dt"])
             ctx.probe("dt_changed")
+            return "ok"
+
+        if name == "set_active":
+            if not self.cfg.get("active"):
+                return "skip"
+            from EasyFEA import MatrixType
+            from EasyFEA.FEM._linalg import FeArray
+
+            with ctx.sut():
+                if op.get("angle") is not None:
+                    g = sim.mesh.groupElem
+                    nPg = g.Get_gauss(MatrixType.rigi).nPg
+                    T = np.tile(np.array([np.cos(op["angle"]), np.sin(op["angle"]), 0.0]), (g.Ne, nPg, 1))
+                    self.mat.Set_active_stress_vec(FeArray.asfearray(T))
+                    ctx.probe("active_direction_registered_again")
+                if op.get("tau") is not None:
+                    self.mat.active_stress = op["tau"]
             return "ok"
 
         if name == "save_iter":
